@@ -83,6 +83,24 @@ def nbLL (S : Schema) (A B : List DNode) : Option Nat :=
 def coreOpsNB (s : Nat) (A B : List DNode) : List String :=
   (UOG.diffU ((splitAt s A).2.1.map (·.val)) ((splitAt s B).2.1.map (·.val))).map renderOp
 
+/-! ## Stage 3b: the group (with its neighbours) inside a container -/
+
+/-- the schema node `s` of the user-ordered leaf-list, if the hypotheses of `apply_diff_userord_ll_in_container` hold: both trees
+are ONE container instance (same flags, no metadata) whose children satisfy `nbLL`, nothing among them a list key -/
+def contLL (S : Schema) (A B : List DNode) : Option Nat :=
+  match A, B with
+  | [.inner c f m ka], [.inner c' f' m' kb] =>
+    if c == c' && f == f' && m.isEmpty && m'.isEmpty && S.kind? c == some .container then
+      match nbLL S ka kb with
+      | some s => if !S.isKey s && (ka ++ kb).all (fun n => !S.isKey n.sid) then some s else none
+      | none => none
+    else none
+  | _, _ => none
+
+/-- `UOG.diffU` on the values of the instances of `s` among the children of the two containers -/
+def coreOpsCont (s : Nat) (A B : List DNode) : List String :=
+  coreOpsNB s ((A.head?.map (·.kids)).getD []) ((B.head?.map (·.kids)).getD [])
+
 /-! ## Stage 2a: one user-ordered list with a single key, key-only instances -/
 
 def isPlainKL (s : Nat) : DNode → Bool
